@@ -73,6 +73,7 @@ type c13Scenario struct {
 	Wrappers []string `json:"wrappers"`
 	Effect   string   `json:"effect"`
 	Finite   bool     `json:"finite"`
+	Sync     bool     `json:"sync"` // the iteration consists of built-ins only (no user-defined predicate between generator and failure)
 	Big      int      `json:"big"`
 	Instant  string   `json:"instant"` // poll | tick | between | pre | never
 	K        int      `json:"k"`
@@ -82,7 +83,7 @@ type c13Scenario struct {
 	Text     string   `json:"text,omitempty"`
 }
 
-var c13Entries = []string{"query-first", "query-kth", "querysolution", "exec-directive", "exec-init", "exec-consult", "query-consult", "exec-termexp", "query-expand-term"}
+var c13Entries = []string{"query-first", "query-kth", "querysolution", "exec-directive", "exec-init", "exec-consult", "query-consult", "exec-termexp", "query-expand-term", "exec-include", "exec-ensure-loaded", "exec-consult-list", "exec-nested-include"}
 var c13Cores = []string{"repeat", "between", "length", "nat", "recursion", "append", "member", "queue", "call_nth", "clause-gen"}
 var c13Wrappers = []string{"findall", "bagof", "setof", "not", "catch", "catch-recovery", "call", "once", "ifthen", "forall", "callN", "findall-in-not"}
 
@@ -96,6 +97,7 @@ func c13Gen(g *kit.Lane) c13Scenario {
 	}
 	sc.Effect = []string{"none", "assertz", "put_char"}[g.Choose(3)]
 	sc.Finite = g.Choose(3) == 0
+	sc.Sync = g.Choose(3) == 0
 	sc.Big = 3 + g.Choose(30)
 	if sc.Core == "member" {
 		sc.Finite = true
@@ -178,6 +180,13 @@ g(X) :- g(Y), X is Y + 3.
 	case "clause-gen":
 		gen = "g(_)"
 	}
+	body := "body"
+	failGoal := "fail"
+	if sc.Sync {
+		// everything between the generator and the failure calls its continuation synchronously
+		body = "tick, cnt(I), " + effect + ", done"
+		failGoal = []string{"1 =:= 2", "atom(1)", "I < 0", "a == b"}[sc.Big%4]
+	}
 	var goal string
 	switch {
 	case sc.Entry == "query-kth":
@@ -196,9 +205,9 @@ g(X) :- g(Y), X is Y + 3.
 			goal = fmt.Sprintf("loopn(%d)", sc.Big)
 		}
 	case sc.Finite:
-		goal = fmt.Sprintf("once((%s, body, cnt(CI), CI >= %d))", gen, sc.Big)
+		goal = fmt.Sprintf("once((%s, %s, cnt(CI), CI >= %d))", gen, body, sc.Big)
 	default:
-		goal = fmt.Sprintf("(%s, body, fail)", gen)
+		goal = fmt.Sprintf("(%s, %s, %s)", gen, body, failGoal)
 	}
 	for _, w := range sc.Wrappers {
 		goal = "(" + goal + ")"
@@ -240,7 +249,7 @@ g(X) :- g(Y), X is Y + 3.
 		sc.Text = "pa(1).\n:- " + goal + ".\npb(1).\n"
 	case "exec-init":
 		sc.Text = "pa(1).\n:- initialization((" + goal + ")).\npb(1).\n"
-	case "exec-consult", "query-consult":
+	case "exec-consult", "query-consult", "exec-include", "exec-ensure-loaded", "exec-consult-list", "exec-nested-include":
 		sc.Text = "pa(1).\n:- " + goal + ".\npb(1).\n"
 	case "exec-termexp", "query-expand-term":
 		sc.Program += "term_expansion(trigger, expanded) :- " + goal + ".\n"
@@ -394,10 +403,13 @@ func (c13) Exec(r *kit.Run) {
 			callErr = interp.ExecContext(ctx, sc.Text)
 			success = callErr == nil
 		})
-	case "exec-consult":
+	case "exec-consult", "exec-include", "exec-ensure-loaded", "exec-consult-list", "exec-nested-include":
 		fsys.Files["f.pl"] = []byte(sc.Text)
+		fsys.Files["outer.pl"] = []byte("po(1).\n:- include(f).\npq(2).\n")
+		text := map[string]string{"exec-consult": ":- consult(f).", "exec-include": "px(1).\n:- include(f).\npy(2).\n", "exec-ensure-loaded": ":- ensure_loaded(f).",
+			"exec-consult-list": ":- [f].", "exec-nested-include": ":- ensure_loaded(outer)."}[sc.Entry]
 		inGoroutine(func() {
-			callErr = interp.ExecContext(ctx, ":- consult(f).")
+			callErr = interp.ExecContext(ctx, text)
 			success = callErr == nil
 		})
 	}
@@ -593,7 +605,7 @@ func c13Probes(r *kit.Run, interp *prolog.Interpreter, out *kit.SimWriter, sc *c
 		}
 	}
 	// a cancelled consult must be repeatable: the 'loaded' mark has to be rolled back
-	if (sc.Entry == "exec-consult" || sc.Entry == "query-consult") && cancelled {
+	if (sc.Entry == "exec-consult" || sc.Entry == "query-consult" || sc.Entry == "exec-ensure-loaded" || sc.Entry == "exec-consult-list") && cancelled {
 		// (if the file's last clause is visible the load had already been committed when the cancel took effect)
 		sol := interp.QuerySolution("catch(pb(1), _, fail).")
 		if sol.Err() == nil {
